@@ -54,7 +54,7 @@ CHECKS = {
     technique="TLA+ property monitor (SenderProps.tla) evaluated by TLC on traces recorded from the real Sender driven by TLC-generated behaviours (Gen_Sender.tla)"),
  "C01": dict(
     category="model_checking",
-    text="Configuration grid enumerated by TLC (object shape x 5 FEC schemes x parity x cenc x in-band/FDT-only FTI and CENC x publish mode x interleave x multiplex, three concurrent objects over two priority queues, transfer counts 1-2, receive-once on/off, MD5 on/off): every packet of the real session pushed in order into a real MultiReceiver; the monitor requires for every object the sender accepted exactly one (receive-once) / one per transfer exact complete writer, no failure, no writer for anything else, and metadata (location, type, lengths, MD5, groups, ETag, cache directive, cenc, OTI) equal to what the sender was given. Sessions whose object has 2049 - 6200 source blocks (more than the receiver pre-allocates) are included. The sender-side monitor additionally checks that the in-band FTI carries exactly the object's parameters and that whatever add_object accepts is transmittable: transfer lengths around 2^32 / 2^40 / 2^48 against the width of EXT_FTI, block sizes around the limits of the codecs (Raptor 8192, RaptorQ 56403, RS(2^8) 256 symbols), no panic / hang of the sender.",
+    text="Configuration grid enumerated by TLC (object shape x 5 FEC schemes x parity x cenc x in-band/FDT-only FTI and CENC x publish mode x interleave x multiplex, three concurrent objects over two priority queues, transfer counts 1-2 with the two-transfer object read from a buffer, a scripted stream or a file, receive-once on/off, MD5 on/off): the recorded sessions are judged as sender behaviours by SenderProps.tla (a sender panic counts against C01) and every packet of the real session pushed in order into a real MultiReceiver; the monitor requires for every object the sender accepted exactly one (receive-once) / one per transfer exact complete writer, no failure, no writer for anything else, and metadata (location, type, lengths, MD5, groups, ETag, cache directive, cenc, OTI) equal to what the sender was given. Sessions whose object has 2049 - 6200 source blocks (more than the receiver pre-allocates) are included. The sender-side monitor additionally checks that the in-band FTI carries exactly the object's parameters and that whatever add_object accepts is transmittable: transfer lengths around 2^32 / 2^40 / 2^48 against the width of EXT_FTI, block sizes around the limits of the codecs (Raptor 8192, RaptorQ 56403, RS(2^8) 256 symbols), no panic / hang of the sender.",
     design_ref="DESIGN.md 4.4, 4.6, 5.3, 7 (C01)",
     note="Trusts TLC, the harness's scripted ObjectWriter/Builder and digests, expat for the FDT XML of the recorded sessions, Partition.tla for the block structure. The decode rule is the one stated by the property (RS: any k distinct symbols; others: all k source symbols), not flute's. Quick tier samples (seeded) the TLC-enumerated schedules; thorough tier replays far more or all of them.",
     technique="TLA+ property monitor (ReceiverProps.tla) evaluated by TLC on traces recorded from the real MultiReceiver fed TLC-enumerated fault schedules (Gen_Recv.tla) over sessions recorded from the real Sender; the mechanism specification Receiver.tla is model-checked composed with the monitor for every push sequence within bounds (MC_Receiver.tla, with broken variants as vacuity guard; for C01 / C02 / C16 also System.tla, the end-to-end composition Sender.tla -> channel -> Receiver.tla) and bound to the code by trace validation (Trace_Receiver.tla: callbacks and container snapshot of every call)"),
